@@ -107,6 +107,8 @@ def check(ctx, report):
             report.add('C04.R1', key, 'guard `%s` says %s bytes are missing, the error reports %s' % (ast.unparse(guard), deficit, want))
         else:
             report.sample({'rule': 'C04.R1', 'site': cons, 'guard': ast.unparse(guard), 'count': ast.unparse(payload), 'verdict': 'agree'})
+    propagation(ctx, report)
+    ldap_bridge(ctx, report)
     report.floor('C04.R1', 30, 'NotEnoughData construction sites')
     framing(ctx, report)
     header_constants(ctx, report)
@@ -275,3 +277,120 @@ def header_constants(ctx, report):
             else:
                 report.sample({'rule': 'C04.R4', 'class': c.name, 'constant': name, 'value': v.node.value, 'min_layout_size': ms}, 40)
     report.floor('C04.R4', 12, 'header constants in pre-checks')
+
+
+# ---- R5: the not-enough-data signal is never swallowed on a binary parse path --------------------------------------
+
+TEXT_SCOPE = ('cryptoparser/common/field.py', 'cryptoparser/httpx/', 'cryptoparser/dnsrec/txt.py')
+REVIEWED_HANDLERS = {
+    'cryptoparser/ssh/key.py:SshX509Certificate._parse#1':
+        'first attempt of two alternative layouts (with / without algorithm prefix): on failure the same input is parsed again '
+        'from offset 0 by the second layout, whose own reads report a short input',
+    'cryptoparser/ssh/key.py:SshX509Certificate._parse#2':
+        'DER certificate of a host key blob: the blob is delimited by the enclosing RFC 4251 string, whose length check is the '
+        'completeness gate; a short DER inside a complete blob is malformed, not incomplete',
+}
+
+
+def propagation(ctx, report):
+    """every handler that can catch NotEnoughData (by name, bare, Exception) in the binary parsing code re-raises it (bare
+    ``raise``, ``raise e``, or a new NotEnoughData): converting it into another error makes a fragment look invalid, after
+    which the reader cannot ask for the rest. Text value parsers work on complete strings and are out of scope."""
+    import ast
+    model = ctx.model
+    report.rule('C04.R5', 'handlers that catch NotEnoughData on binary parse paths re-raise it')
+    for f in model.functions():
+        if f.module.external or f.module.relpath.startswith(TEXT_SCOPE) or (f.cls is not None and f.cls.name == 'ParserText'):
+            continue
+        k = 0
+        for n in ast.walk(f.node):
+            if not isinstance(n, ast.ExceptHandler):
+                continue
+            t = ast.unparse(n.type) if n.type is not None else ''
+            names = {x.strip().split('.')[-1] for x in t.strip('()').split(',')} if t else set()
+            if not (t == '' or names & {'NotEnoughData', 'Exception', 'BaseException'}):
+                continue
+            k += 1
+            report.count('C04.R5')
+            report.touch(f)
+            reraises = False
+            for x in ast.walk(n):
+                if isinstance(x, ast.Raise):
+                    if x.exc is None or (n.name and isinstance(x.exc, ast.Name) and x.exc.id == n.name and names <= {'NotEnoughData'}):
+                        reraises = True
+                    elif 'NotEnoughData' in ast.unparse(x.exc):
+                        reraises = True
+                if isinstance(x, ast.Call) and ast.unparse(x.func).endswith('raise_from') and x.args and 'NotEnoughData' in ast.unparse(x.args[0]):
+                    reraises = True
+            if reraises:
+                continue
+            key = '%s#%d' % (f.construct, k)
+            if key in REVIEWED_HANDLERS:
+                report.sample({'rule': 'C04.R5', 'handler': key, 'verdict': 'reviewed', 'reason': REVIEWED_HANDLERS[key]})
+                continue
+            report.add('C04.R5', '%s@except[%s]' % (f.construct, t or 'bare'),
+                       'the handler `except %s` catches NotEnoughData and does not raise it again: a fragment of a valid message is reported as '
+                       'something else, the missing-byte count is lost' % (t or ''))
+    report.floor('C04.R5', 5, 'handlers that can catch NotEnoughData')
+
+
+# ---- R6: the LDAP bridge recognises the library's short-input message for every byte count --------------------------
+
+def ldap_bridge(ctx, report):
+    """LDAP messages are decoded by asn1crypto; the only source of NotEnoughData is a regular expression applied to that
+    library's 'Insufficient data' message. The pattern constant of /repo is matched (python ``re`` over the pattern text,
+    no repository code involved) against the message template read from the asn1crypto source, instantiated with byte
+    counts of one to six digits: both counts must be recovered, and the count handed to NotEnoughData is their difference"""
+    import ast
+    import glob
+    import re
+    model = ctx.model
+    report.rule('C04.R6', 'LDAP: the pattern that recognises the decoder\'s short-input message recovers both byte counts for every magnitude')
+    c = model.try_cls('LDAPMessageParsableBase')
+    if c is None:
+        report.error('C04.R6: LDAPMessageParsableBase vanished')
+        return
+    pattern = None
+    for st in c.node.body:
+        if isinstance(st, ast.Assign) and any(isinstance(t, ast.Name) and t.id == '_NOT_ENOUGH_DATA_REGEX' for t in st.targets):
+            call = st.value
+            if isinstance(call, ast.Call) and call.args and isinstance(call.args[0], ast.Constant) and isinstance(call.args[0].value, str):
+                pattern = call.args[0].value
+    f = c.methods.get('_parse_asn1')
+    if pattern is None or f is None:
+        report.error('C04.R6: the short-input pattern / _parse_asn1 of the LDAP bridge vanished')
+        return
+    report.touch(f)
+    template = None
+    for path in glob.glob('/venv/lib/python*/site-packages/asn1crypto/parser.py'):
+        with open(path) as fh:
+            for st in ast.parse(fh.read()).body:
+                if isinstance(st, ast.Assign) and any(isinstance(t, ast.Name) and t.id == '_INSUFFICIENT_DATA_MESSAGE' for t in st.targets) and \
+                        isinstance(st.value, ast.Constant):
+                    template = st.value.value
+    if template is None:
+        report.undecided.append('asn1crypto message template not found: C04.R6 not evaluated')
+        return
+    try:
+        rx = re.compile(pattern)
+    except re.error as e:
+        report.add('C04.R6', c.construct + '@pattern', 'the short-input pattern does not compile: %s' % e)
+        return
+    src = ast.unparse(f.node)
+    for requested, available in ((2, 0), (2, 1), (9, 8), (10, 9), (17, 12), (31, 30), (127, 99), (128, 100), (1000, 999), (70000, 65535), (123456, 12)):
+        report.count('C04.R6')
+        m = rx.match(template % (requested, available))
+        got = None
+        if m is not None:
+            try:
+                got = (int(m.group(1)), int(m.group(2)))
+            except (IndexError, ValueError):
+                got = None
+        if got != (requested, available):
+            report.add('C04.R6', c.construct + '@pattern',
+                       'a short input of %d of %d bytes (decoder message %r) is %s: it is reported as invalid instead of incomplete' % (
+                           available, requested, template % (requested, available), 'not recognised' if m is None else 'read as %s' % (got,)))
+            break
+    report.count('C04.R6')
+    if 'bytes_requested - bytes_available' not in src.replace('(', '').replace(')', ''):
+        report.add('C04.R6', f.construct + '@count', 'the count handed to NotEnoughData is not requested - available')
